@@ -467,7 +467,7 @@ func renderResult(s []mComb, r mRes) (src, canon string) {
 	case "bool":
 		return "Bool", "Bool"
 	case "vecint":
-		return "(Vector int)", "Vector int"
+		return "Vector int", "Vector int" // round brackets are not allowed in a function result
 	case "ref":
 		if r.A >= 1 && r.A <= len(s) {
 			return s[r.A-1].typeName(), s[r.A-1].typeName()
@@ -710,4 +710,9 @@ func stripANSI(s string) string {
 		b.WriteByte(s[i])
 	}
 	return b.String()
+}
+
+func readFileStr(p string) (string, error) {
+	b, err := os.ReadFile(p)
+	return string(b), err
 }
